@@ -78,6 +78,8 @@ OpResult run_op(const OpSpec &op) {
     op.fout->short_io = op.short_io;
     op.fout->io_rng.reseed(Rng::mix(op.io_seed, 22));
     op.fout->id = 1;
+    // bound the memory a defective export can consume (a correct operation writes at most input + header + one block)
+    if (op.fout->size_cap < 0) op.fout->size_cap = (long)(op.fin ? op.fin->data.size() : 0) * 2 + (1 << 20);
     fout = sim_fopen(op.fout, "wb+", op.outbuf);
   }
   g_spy.calls.clear();
